@@ -45,6 +45,16 @@ CHECKS = {
             "bets are called directly and entry j must not move when observations >= j change. k=1 and k=n-1 strata forced.",
             "trusted: numpy cumulative kernels are sequential (bit equality is then the honest oracle)",
             "DESIGN.md section 4, C05"),
+    "C01": ("exact-count monitor: the real test is executed on every distinct ordering of small null populations and on every sequence of small null laws; rejection frequencies compared exactly with alpha",
+            "Exploration by runtime monitoring with an exact-count oracle: each cell fixes a shipped (test, estimator/bet, "
+            "tuning) configuration and a null population (dyadic multiset, mean <= t, N <= 8 quick / <= 11 thorough) or a "
+            "null law (2-3 atoms, dyadic weights, all k^n sequences, n <= 7 / 9); the real code is run on the whole family "
+            "and for every attained alpha < 1 the exact fraction with min(p, min_j p_j) <= alpha is compared with alpha. "
+            "No statistical test is involved in the quick tier; the thorough tier adds Monte-Carlo cells at N = 200, 1000 "
+            "that alarm only when the exact binomial tail is below 1e-9. It decides the populations enumerated, not all N.",
+            "trusted: numpy; dyadic populations (a population is null in the arithmetic the code uses); F(alpha) <= "
+            "alpha(1+1e-9)+1e-12; defects that need N > 11 and move the rejection probability by < ~0.01 are out of reach",
+            "DESIGN.md section 4, C01"),
 }
 
 PENDING_REASON = ("check designed in DESIGN.md section 4 but not yet built in this session; "
